@@ -4,7 +4,7 @@
 (* forml.setup Config / Provider / Feed sections (code -> spec).           *)
 (*                                                                         *)
 (* observation kind "merge":   stack (sources in order) and trail (the     *)
-(*    projected content of the real Config after each source); accepted    *)
+(*    projected content of the real Config after steps[i] sources); accepted *)
 (*    step by step with ConfigOps!Accepts; drift = steps whose result is   *)
 (*    not literally the canonical denotation Den (allowed list orders).    *)
 (* observation kind "resolve": a configuration, a section group, the       *)
@@ -25,11 +25,11 @@ MergeMatched(o) ==
     LET S == Tbls(o.stack)
         RECURSIVE Upto(_)
         Upto(n) == IF n > Len(o.trail) THEN n - 1
-                   ELSE IF Accepts(SubSeq(S, 1, n), Tbl(o.trail[n])) THEN Upto(n + 1) ELSE n - 1
+                   ELSE IF Accepts(SubSeq(S, 1, o.steps[n]), Tbl(o.trail[n])) THEN Upto(n + 1) ELSE n - 1
     IN Upto(1)
 MergeDrift(o) ==
     LET S == Tbls(o.stack)
-    IN Cardinality({n \in 1..Len(o.trail) : Tbl(o.trail[n]) # Den(SubSeq(S, 1, n))})
+    IN Cardinality({n \in 1..Len(o.trail) : Tbl(o.trail[n]) # Den(SubSeq(S, 1, o.steps[n]))})
 
 (****************************** resolve ************************************)
 \* o.cfg : flat table, o.group / o.index : section names, o.feed : priority is a semantic field,
